@@ -86,6 +86,11 @@ def resampled_pixels(im, size):
 
 
 def make_still(spec):
+    if spec.get("pixels"):  # (additive) the exact pixels: rows of [r, g, b, a]; mode RGBA or RGB
+        rows = spec["pixels"]
+        im = Image.new("RGBA", (len(rows[0]), len(rows)))
+        im.putdata([tuple(p) for row in rows for p in row])
+        return im if spec["mode"] == "RGBA" else im.convert(spec["mode"])
     rng = random.Random(spec["seed"])
     w, h = spec["size"]
     kind = spec.get("kind", "random")
@@ -600,6 +605,9 @@ def run_case(case):
             res["rendered_size"] = pinned[0]  # the size the render was made for
         if dyn is not None:
             res["advertised_before_env_change"] = res_pre
+        if case.get("want_render_image") and "data" in captured:
+            # (additive) mode and pixel size of the image whose bytes the graphics style encoded
+            res["render_image"] = {"mode": captured["data"][0].mode, "size": list(captured["data"][0].size)}
         if style == "block" and "data" in captured:
             im2, rgb, a = captured["data"]
             res["alpha_mode"] = im2.mode == "RGBA"
